@@ -64,6 +64,10 @@ def load(path):
 out = {"pydantic_available": B.PYDANTIC_AVAILABLE, "reports": []}
 
 
+N_THREADS = int(os.environ.get("VF_THREADS", "0") or 0)
+PREV = {}
+
+
 def process(c):
     rep = {}
     try:
@@ -86,6 +90,22 @@ def process(c):
                 rep["dump_plain"] = obj.model_dump(exclude_none=True)
             except Exception as e:  # noqa
                 rep["dump_plain_err"] = repr(e)[:200]
+            if N_THREADS <= 1:
+                # what an application sees when it compares two objects: the same wire object validated twice gives
+                # equal objects, and this object against the previous one of its class gives whatever it gives -
+                # under both backends alike
+                try:
+                    import copy
+                    eq = {"same_wire_twice": bool(obj == cls.model_validate(copy.deepcopy(c["wire"])))}
+                    prev = PREV.get(c["cls"])
+                    if prev is not None:
+                        eq["previous_of_class"] = bool(obj == prev[1])
+                        eq["ne_previous_of_class"] = bool(obj != prev[1])
+                        rep["eq_prev_keys"] = sorted(prev[0]) if isinstance(prev[0], dict) else []
+                    rep["eq"] = eq
+                except Exception as e:  # noqa
+                    rep["eq"] = {"err": type(e).__name__}
+                PREV[c["cls"]] = (c["wire"], obj)
         elif c["kind"] == "envelope":
             from chuk_mcp.protocol.messages import json_rpc_message as J
             m = J.parse_message(c["wire"])
@@ -117,7 +137,6 @@ def process(c):
     return rep
 
 
-N_THREADS = int(os.environ.get("VF_THREADS", "0") or 0)
 if N_THREADS > 1:
     # several threads validate the same case at the same moment (for a class this is its first use in the process): a
     # server dispatching from a thread pool. Every thread must see what a single thread sees; the report handed back is
